@@ -44,6 +44,12 @@ def corpus():
     P["terminate-simulation-when"] = dict(base, terminate_sim_when="stop", values={}, conds=["stop"])
     P["top-level-terminate-after-2-steps"] = dict(base, terminate_after=(2, "steps"), values={}, conds=[])
     P["top-level-terminate-after-seconds"] = dict(base, terminate_after=(2, "seconds"), values={}, conds=[])
+    P["always-violated-at-the-time-limit-step"] = dict(base, terminate_after=(2, "steps"), require_always="ok", values={}, conds=["ok"])
+    P["sub-always-violated-at-its-time-limit-step"] = dict(
+        agents=[("a0", "B0")], behaviors={"B0": beh("a0")}, monitor=None, record=False,
+        subs={"Sub": dict(compose=[("loop", [("log", "sub"), ("wait",)])], terminate_after=("N", "steps"), require_always="ok")},
+        compose=[("do", "Sub", None), ("log", "after"), ("loop", [("wait",)])],
+        values={"N": ("int", 0, 5)}, conds=["ok"])
     P["behavior-terminates"] = dict(
         agents=[("a0", "B0"), ("a1", "B1")],
         behaviors={"B0": [("loop", [("log", "beh:a0"), ("if", "quit", [("terminate",)]), ("take", "act:a0")])], "B1": beh("a1")},
@@ -139,14 +145,23 @@ def harness_for(name, P, horizon, dts):
         k = 1
         while k < horizon and not (K == k):  # maxSteps realised: it bounds the length of every log
             k += 1
-        scene, _ = scenario.generate(maxIterations=1, verbosity=0)
-        sim = D.simulator(list(perm)).simulate(scene, maxSteps=k, timestep=dt, maxIterations=1, verbosity=0)
-        ctx.check("simulation-not-rejected", sim is not None)
-        if sim is None:
-            return
+        from scenic.core.distributions import RejectionException
+
+        try:
+            scene, _ = scenario.generate(maxIterations=1, verbosity=0)
+            sim = D.simulator(list(perm)).simulate(scene, maxSteps=k, timestep=dt, maxIterations=1, verbosity=0)
+        except RejectionException:
+            sim = None
         real_log = [e for e in D.LOG]
         ref = D.Ref(P, k, dt, list(perm))
-        reason, ref_actions = ref.simulate()
+        try:
+            reason, ref_actions = ref.simulate()
+            want_rejected = False
+        except D.RefReject:
+            want_rejected = True
+        ctx.check("rejected-iff-the-reference-rejects", (sim is None) == want_rejected, rejected=sim is None, reference_rejects=want_rejected)
+        if sim is None or want_rejected:
+            return
         ok = real_log == ref.log
         first = next((i for i, (a, b) in enumerate(zip(real_log, ref.log)) if a != b), min(len(real_log), len(ref.log)))
         ctx.check("event-log-equals-reference-interpreter", ok, first_difference_at=first,
